@@ -10,6 +10,7 @@ lists of rows; `isSp n M` says: `2n` rows, every row below `4^n`, and `S Λ Sᵀ
 -/
 import NumqiProofs.SpF2Inverse
 import NumqiProofs.SpF2Enum
+import NumqiProofs.SpF2Batch
 
 namespace Numqi.C09
 open Numqi Numqi.SpF2
@@ -103,6 +104,30 @@ theorem images_exactly_Sp (n : Nat) (M : List Nat) :
   · intro h
     obtain ⟨t, h1, h2, h3⟩ := fromIntTuple_surjective n M h
     exact List.mem_map.2 ⟨t, (mem_allTuples_iff n t).2 ⟨h1, h2⟩, h3⟩
+
+/-! ### batched calls (`x.ndim ≥ 2`): `transvection` / `get_inner_product` act on the last axis, elementwise over the leading ones -/
+
+/-- **`transvection` on a batch is the single-vector map on every row** (any leading shape `(k,2n)`, `(k,2n,2n)`, `(k,l,2n)`:
+the model sees the array flattened to its rows), and a stack of arrays is handled block by block -/
+theorem transvection_batch_elementwise (n : Nat) (rows hs : List Nat) :
+    (tvsBatch n rows hs).length = rows.length
+    ∧ (∀ i, i < rows.length → (tvsBatch n rows hs).getD i 0 = tvs n (rows.getD i 0) hs)
+    ∧ ∀ Ms : List (List Nat), tvsBatch n Ms.flatten hs = (Ms.map fun M => tvsBatch n M hs).flatten :=
+  ⟨tvsBatch_length n rows hs, tvsBatch_getD n rows hs, fun Ms => tvsBatch_flatten n Ms hs⟩
+
+/-- `get_inner_product` on a batch: one bit per row -/
+theorem innerProduct_batch_elementwise (n : Nat) (rows : List Nat) (w i : Nat) (hi : i < rows.length) :
+    (ipBatch n rows w).getD i false = ip n (rows.getD i 0) w := ipBatch_getD n rows w i hi
+
+/-- **a group element pushed through transvections (as a `(2n,2n)` block of a stack) stays in the group** -/
+theorem transvection_batch_mem_Sp (n : Nat) (M hs : List Nat) (h : isSp n M = true) (hh : ∀ g ∈ hs, g < 4 ^ n) :
+    isSp n (tvsBatch n M hs) = true := tvsBatch_isSp n M hs h hh
+
+/-- **the image set of `from_int_tuple` is closed under every transvection** (the closure probed on the whole stack) -/
+theorem image_closed_under_transvections (t : List (Nat × Nat)) (hr : inRange t = true) (hs : List Nat)
+    (hh : ∀ g ∈ hs, g < 4 ^ t.length) :
+    ∃ t', t'.length = t.length ∧ inRange t' = true ∧ fromIntTuple t' = tvsBatch t.length (fromIntTuple t) hs :=
+  fromIntTuple_surjective t.length _ (tvsBatch_isSp _ _ hs (fromIntTuple_mem_Sp t hr) hh)
 
 /-- **`rand_SpF2` (`random/_spf2.py:32-58`) is valid for every draw**: it returns `from_int_tuple` of a tuple whose entries are
 drawn with `rng.randint(0, base-1)` (in range), hence a symplectic matrix from which `to_int_tuple` recovers the tuple -/
